@@ -578,12 +578,18 @@ func (s *Snapshot) Decode(buf []byte, r io.Reader) error {
 // When snapshots are shared by multiple threads, each thread should Open the
 // snapshot. This API internally tracks the reference count for the snapshot.
 func (s *Snapshot) Open() bool {
-	if atomic.LoadInt32(&s.refCount) == 0 {
-		return false
+	for {
+		refCount := atomic.LoadInt32(&s.refCount)
+		if refCount == 0 {
+			return false
+		}
+		verifPoint(VpOpenChecked, unsafe.Pointer(s))
+		// Increment only if the count is still the non-zero value just seen:
+		// a released snapshot must never come back to life.
+		if atomic.CompareAndSwapInt32(&s.refCount, refCount, refCount+1) {
+			return true
+		}
 	}
-	verifPoint(VpOpenChecked, unsafe.Pointer(s))
-	atomic.AddInt32(&s.refCount, 1)
-	return true
 }
 
 // Close is the snapshot descructor
